@@ -89,6 +89,12 @@ def lemma_harnesses(f, T, lo, hi, is_float=False, unit_lo=None, unit_hi=None):
     return r'''
 #ifndef VERIF_NATIVE
 void h_%(f)s_comm(void){ %(T)s a, b; %(ra)s %(rb)s
+#ifdef KF_C07_GENERIC_COMM
+  /* known finding C07-generic-mul-noncommutative: the pairs on which the recorded formula a / double(max) * b (truncated) rounds
+     differently in the two argument orders are excluded; any other non-commutative pair is still a violation */
+  { U_T ua__ = TO_UNSIGNED(a), ub__ = TO_UNSIGNED(b);
+    __CPROVER_assume((U_T)((double)ua__ / (double)U_MAXV * (double)ub__) == (U_T)((double)ub__ / (double)U_MAXV * (double)ua__)); }
+#endif
   __CPROVER_assert(%(f)s(a,b) == %(f)s(b,a), "commutative");
   __CPROVER_assert(0, "VACUITY"); }
 void h_%(f)s_mono(void){ %(T)s a, a2, b; %(ra)s %(ra2)s %(rb)s __CPROVER_assume(a <= a2);
@@ -298,7 +304,7 @@ def mul_unit(ch, tier):
 
 
 for ch, tier in [('u8', 'quick'), ('u16', 'quick'), ('f32', 'quick'), ('i8', 'quick'), ('i16', 'quick'),
-                 ('p5', 'quick'), ('p3', 'thorough'), ('p7', 'thorough'), ('p11', 'thorough'), ('u32', 'thorough'), ('i32', 'thorough')]:
+                 ('p5', 'quick'), ('p3', 'thorough'), ('p7', 'thorough')]:
     UNITS.append(mul_unit(ch, tier))
 
 
@@ -393,6 +399,55 @@ for ch, tier in [('u8', 'quick'), ('u16', 'quick'), ('u32', 'quick'), ('i8', 'qu
                  ('p8', 'thorough'), ('p9', 'thorough'), ('p12', 'thorough'), ('p15', 'thorough'), ('p16', 'thorough'),
                  ('p17', 'thorough'), ('p31', 'thorough'), ('p32', 'thorough')]:
     UNITS.append(invert_unit(ch, tier))
+
+
+# ------------------------------------------------------------------------------------------------ wide channels: native stand-ins
+# The generic (double) multiplier on channels of 8 or more bits is out of reach of the SAT back end (p11: every obligation times out at
+# 900 s).  Complete native enumeration for packed 8..11 bit channels, boundary + seeded random sampling for 16-bit packed and 32-bit
+# channels; reported as bounded stand-ins, never as proved.
+NATIVE_MUL = r"""
+#include <boost/gil/channel_algorithm.hpp>
+#include <boost/gil/typedefs.hpp>
+#include <random>
+#include <cmath>
+#include "vreplay.hpp"
+using namespace boost::gil;
+#include "inst.hpp"
+using base_t = base_channel_type<CV>::type;
+static base_t mul(base_t a, base_t b){ return (base_t)channel_multiply(CV(a), CV(b)); }
+int main(int argc, char** argv){ vr::parse(argc, argv); std::mt19937_64 g(vr::u64("seed", 1));
+  const long double lo = (long double)(base_t)channel_traits<CV>::min_value(), hi = (long double)(base_t)channel_traits<CV>::max_value(), range = hi - lo;
+  using U = detail::channel_convert_to_unsigned<CV>::result_type; using ub = base_channel_type<U>::type; const double umax = (double)(ub)channel_traits<U>::max_value();
+  long n = 0, f_comm = 0, f_unit = 0, f_mono = 0, f_ident = 0, f_range = 0, known = 0, printed = 0; bool witness = false;
+  auto check = [&](base_t a, base_t b){ n++; base_t r = mul(a, b), r2 = mul(b, a);
+    auto fail = [&](long& c, const char* w){ c++; if (printed++ < 5) std::printf("FAILCASE %s at a=%Lg b=%Lg (mul=%Lg, swapped=%Lg)\n", w, (long double)a, (long double)b, (long double)r, (long double)r2); };
+    if (r != r2) { bool kf = false;
+#ifdef KF_C07_GENERIC_COMM
+      { double ua = (double)((long double)a - lo), ub_ = (double)((long double)b - lo); kf = (ub)(ua / umax * ub_) != (ub)(ub_ / umax * ua); }   // the recorded failing set
+#endif
+      if (kf) known++; else fail(f_comm, "not commutative"); }
+    if ((long double)r < lo || (long double)r > hi) fail(f_range, "result outside the channel range");
+    if (std::fabs(((long double)r - lo) * range - ((long double)a - lo) * ((long double)b - lo)) > range) fail(f_unit, "not within one unit of a*b/max");   /* 'within one unit' read inclusively: truncation of a/max*b can be exactly one unit below an exact quotient */
+    if (b == (base_t)hi && r != a) fail(f_ident, "max is not the identity"); if (b == (base_t)lo && r != (base_t)lo) fail(f_ident, "min is not the annihilator");
+    if ((long double)a < hi && mul((base_t)(a + 1), b) < r) fail(f_mono, "not monotone in the first argument"); };
+  if (range < 4096) { for (long a = (long)lo; a <= (long)hi; a++) for (long b = (long)lo; b <= (long)hi; b++) check((base_t)a, (base_t)b); }
+  else { std::uniform_int_distribution<long long> d((long long)lo, (long long)hi); long N = vr::str("tier") == "thorough" ? 20000000 : 2000000;
+    for (long i = 0; i < N; i++) check((base_t)d(g), (base_t)d(g));
+    long long c[] = {(long long)lo, (long long)lo + 1, (long long)hi - 1, (long long)hi, (long long)((lo + hi) / 2)}; for (long long a : c) for (long long b : c) check((base_t)a, (base_t)b);
+    for (long i = 0; i < 200000; i++) { check((base_t)d(g), (base_t)hi); check((base_t)d(g), (base_t)lo); } }
+#ifdef KF_C07_GENERIC_COMM
+  if (known) std::printf("KNOWNCASE C07-generic-mul-noncommutative %ld pairs of this run lie in the recorded failing set (the two roundings of a/double(max)*b disagree)\n", known);
+#endif
+  std::printf("CLAUSE commutative %s %ld channel_multiply(a,b) == channel_multiply(b,a)\n", f_comm ? "FAIL" : "PASS", f_comm);
+  std::printf("CLAUSE one_unit %s %ld within one unit of a*b/max\n", f_unit ? "FAIL" : "PASS", f_unit);
+  std::printf("CLAUSE monotone %s %ld monotone in the first argument\n", f_mono ? "FAIL" : "PASS", f_mono);
+  std::printf("CLAUSE identity %s %ld maximum is the identity, minimum the annihilator\n", f_ident ? "FAIL" : "PASS", f_ident);
+  std::printf("CLAUSE range %s %ld result inside the channel range\n", f_range ? "FAIL" : "PASS", f_range);
+  std::printf("NATIVE cases=%ld window=%s\n", n, range < 4096 ? "ALL pairs of the channel (complete enumeration)" : "seeded random pairs + boundary pairs"); return 0; }
+"""
+for ch, tier in [('p8', 'quick'), ('p11', 'thorough'), ('p16', 'thorough'), ('u32', 'thorough'), ('i32', 'thorough')]:
+    UNITS.append(Unit('mul_native.' + ch, 'C07', '/* bounded / complete native stand-in, no extracted body */\n', insts=[(ch, tier, {'T_CV': chan.CHANNELS[ch]})],
+                      checks=[Check('lemma_comm', 'none', engine='N', native=NATIVE_MUL, timeout=1800, tier=tier)]))
 
 META = dict(
     not_covered=['float32 channel_multiply: monotonicity (IEEE-754 product monotone on [0,1]) - no installed back end decides it; body is `a*b`, contract pins RET == a*b'],
